@@ -63,10 +63,18 @@ structure IFile where
 inductive NodeKind | file | dir | other
   deriving DecidableEq, Repr
 
+/-- a node of a stored tree.  `size`, `links`, `inode`, `device` are `Metadata::{size, links, inode, device_id}` as recorded
+by the archiver — what `stat` said (stdin / stdin-command snapshots: `Metadata::default()`, i.e. size 0 with real content; a
+file that grew while it was read; hardlinks share an inode, which identifies a file only WITHIN one snapshot).  `check_trees`
+never looks at them (neither do restore / dump, which go by `content`); they are in the model so that this can be stated. -/
 structure Node where
   kind : NodeKind
   subtree : Option Id
   content : Option (List Id)
+  size : Nat := 0
+  links : Nat := 1
+  inode : Nat := 0
+  device : Nat := 0
   deriving DecidableEq, Repr
 
 /-- Outcome of decrypting (and, if `compressed`, zstd-decoding) a byte range of a stored pack file. -/
